@@ -73,3 +73,47 @@ Qed.
 (* GHE.size (regenerated assignment): the height left on the object is exactly what the root solver returned *)
 Lemma stored_height_is_solver_result h : size_stored_height h = h.
 Proof. reflexivity. Qed.
+
+(* ---------- the manager with its design object ---------- *)
+Lemma grun_cfg m ops : m_cfg (grun m ops) = mrun (m_cfg m) ops.
+Proof.
+  revert m; induction ops as [|o ops IH]; intros m; [reflexivity|].
+  unfold grun, mrun in *. cbn [fold_left]. rewrite IH. f_equal. destruct o; reflexivity.
+Qed.
+
+(* setters called after set_design do not reach the design until set_design is called again *)
+Theorem late_setters_do_not_reach_the_design m ops :
+  forallb (fun o => negb (is_set_design o)) ops = true -> design_inputs (grun m ops) = design_inputs m.
+Proof.
+  revert m; induction ops as [|o ops IH]; intros m H; [reflexivity|].
+  cbn [forallb] in H. apply andb_prop in H. destruct H as [Ho H].
+  unfold grun in *. cbn [fold_left]. rewrite (IH _ H). destruct o; try reflexivity. discriminate.
+Qed.
+
+(* the design works with the physical inputs as they were at the LAST set_design *)
+Theorem design_is_the_last_capture m ops1 x ops2 :
+  forallb (fun o => negb (is_set_design o)) ops2 = true ->
+  design_inputs (grun m (ops1 ++ SetDesign x :: ops2)) = Some (physical (mrun (m_cfg m) (ops1 ++ [SetDesign x]))).
+Proof.
+  intros H. unfold grun. rewrite fold_left_app. cbn [fold_left].
+  fold (grun (gstep (fold_left gstep ops1 m) (SetDesign x)) ops2).
+  rewrite (late_setters_do_not_reach_the_design _ _ H).
+  cbn [gstep design_inputs m_captured]. f_equal. f_equal.
+  fold (grun m ops1). rewrite grun_cfg. unfold mrun. rewrite fold_left_app. reflexivity.
+Qed.
+
+(* two call histories whose physical inputs agree at their last set_design give find_design the same inputs, whatever came before,
+   whatever nominal borehole heights were used, and whatever setters were called afterwards *)
+Theorem same_inputs_same_design m1 m2 a1 a2 x1 x2 b1 b2 :
+  forallb (fun o => negb (is_set_design o)) b1 = true -> forallb (fun o => negb (is_set_design o)) b2 = true ->
+  physical (mrun (m_cfg m1) (a1 ++ [SetDesign x1])) = physical (mrun (m_cfg m2) (a2 ++ [SetDesign x2])) ->
+  design_inputs (grun m1 (a1 ++ SetDesign x1 :: b1)) = design_inputs (grun m2 (a2 ++ SetDesign x2 :: b2)).
+Proof. intros H1 H2 E. rewrite !design_is_the_last_capture by assumption. rewrite E. reflexivity. Qed.
+
+Theorem find_design_leaves_the_manager m : gstep m FindDesign = m.
+Proof. reflexivity. Qed.
+
+Example late_setter_example :
+  design_inputs (grun new_mgr [SetSim 1; SetLoads 7; SetDesign 3; SetSim 2; FindDesign]) =
+  design_inputs (grun new_mgr [SetSim 1; SetLoads 7; SetDesign 3; FindDesign]).
+Proof. reflexivity. Qed.
